@@ -85,7 +85,8 @@ def draw_request(rng, mesh, thick, fixed=None):
     else:
         req["resolution"] = int(rng.choice([24, 48, 65, 128, 257])) if len(mesh["pos"]) < 600 else 32
     req["layers"] = fixed.get("layers") or [["tag"], ["tag", "temp"], ["temp", "tag"], ["tag", "velocity:vec"],
-                                            ["velocity:vec", "temp", "tag"]][int(rng.integers(0, 5))]
+                                            ["velocity:vec", "temp", "tag"], ["itag"], ["ilevel", "itag"],
+                                            ["itag", "temp"]][int(rng.integers(0, 8))]
     if thick:
         req["operation"] = fixed.get("operation") or OPS[int(rng.integers(0, len(OPS)))]
         if req["dx"] is None:
